@@ -220,7 +220,7 @@ def implicit_split_workflow(A: Analysis, col: Collector, rule: str):
 @prop(
     "C01",
     technique="dominance (edge-labelled) over the CFG of State.splits for the inner-split shape check; operator-table extraction; dominance of job construction by state preparation",
-    decides="one clause plus its wiring: inner splits over fields of different lengths are rejected before any job runs -- (a) the operator table maps '.' to zip and '*' to itertools.product, and in State.splits the operator application under '.' is reachable only through the equal-shape branch of a comparison of the two operands' shapes whose other branch raises; (b) State.prepare_states (which reaches splits) dominates the construction of a split node's jobs, one job per enumerated state with matching index, each task evolved from the node task with only the resolved fields changed; Submitter.__call__ wraps a split task into the implicit workflow.",
+    decides="one clause plus its wiring: inner splits over fields of different lengths are rejected before any job runs -- (a) the operator table maps '.' to zip and '*' to itertools.product, and in State.splits the operator application under '.' is reachable only through the equal-shape branch of a comparison of the two operands' shapes whose other branch raises; (b) State.prepare_states (which reaches splits) dominates the construction of a split node's jobs, one job per enumerated state with matching index, each task evolved from the node task with only the resolved fields changed; Submitter.__call__ wraps a split task into the implicit workflow. Additionally: in _split_task the element of a split field is delivered on key membership / KeyError, never on a test of the element's value.",
     not_decided="that the enumeration is the outer/inner product in the stated order for nested splitters, that each job receives the matching element, ordering of outputs, empty splits -- index arithmetic over runtime lists.",
     level_note="Trusted: CPython zip/itertools.product semantics.",
 )
